@@ -18,6 +18,12 @@ def main(argv):
     verbose = "-v" in argv
     for q in [a for a in argv if not a.startswith("-")]:
         t0 = time.time()
+        if os.environ.get("PYVC_VACUITY"):
+            # developer vacuity probe: add the postcondition `1 == 2`; it must NOT be discharged on any path
+            _m, _c, _f = idx.function(q)
+            _k = reg.lookup(_c.name if _c else None, _f.name, _m.rel)
+            if _k is not None and "1 == 2" not in _k.ensures:
+                _k.ensures.append("1 == 2")
         r = verify_function(idx, reg, q)
         print("== %s paths=%d obligations=%d gen=%.2fs errors=%s outcomes=%s" % (q, r.paths, len(r.obligations), time.time() - t0, r.errors, r.outcomes))
         for ob in r.obligations:
